@@ -388,7 +388,7 @@ class C12(Base):
         names = rng.sample(OPT_NAMES + ["foo", "minimumfractiondigits"], rng.choice([1, 1, 1, 2, 2, 3, 5]))
         if rng.random() < 0.5 and "minimumFractionDigits" not in names:
             names[0] = "minimumFractionDigits"
-        if rng.random() < 0.35 and "type" not in names:
+        if rng.random() < 0.45 and "type" not in names:
             names.append("type")
         for n in names:
             r = rng.random()
@@ -398,6 +398,8 @@ class C12(Base):
                 else:
                     vals = STR_OPTS.get(n) or ["USD", "EUR", "", "é", "x y"]
                     v = rng.choice(vals) if r < 0.85 else rng.choice(["Ordinal", "ORDINAL", "", "none", "TRUE", "yes"])
+                    if n == "type" and r < 0.6:
+                        v = "ordinal"
                     out.append("%s=Q%s" % (n, hx(v)))
             else:
                 if r < 0.08:
@@ -469,7 +471,7 @@ class C12(Base):
             for m in ["0", "18", "19", "20", "25", "100", "101", "1000000"]:
                 yield "num en L%s minimumFractionDigits=D%s %s" % (hx(v), m, self.ALLKEYS)
                 yield "num lt L%s minimumFractionDigits=D%s %s" % (hx(v), m, self.ALLKEYS)
-        n = 6000 if tier == "quick" else 400000
+        n = 40000 if tier == "quick" else 400000
         for _ in range(n):
             yield self.gen_case(rng)
         for _ in range(n // 20):
